@@ -158,6 +158,43 @@ func c02oracle(c c02case) *c02failure {
 			return &c02failure{"pot-tie-split", fmt.Sprintf("pot %d (level %d, %d merged levels): tied winners get %d and %d", j, p.Level, len(p.Levels), maxW, minW), known}
 		}
 	}
+	// every tied winner's share of a pot is floor(T/k) or ceil(T/k): checked on the total each player takes out
+	// (its change plus what it put in), which is observable for every player whether or not it is listed as a winner
+	for i := 0; i < n; i++ {
+		if c.Folds[i] {
+			continue
+		}
+		var lo, hi, slack int64
+		for _, p := range pots {
+			if _, in := p.Contributors[i]; !in {
+				continue
+			}
+			best, k := -1, int64(0)
+			for q := 0; q < n; q++ {
+				if _, in := p.Contributors[q]; in && !c.Folds[q] {
+					if c.Scores[q] > best {
+						best, k = c.Scores[q], 0
+					}
+					if c.Scores[q] == best {
+						k++
+					}
+				}
+			}
+			if c.Scores[i] != best {
+				continue
+			}
+			lo += p.Total / k
+			hi += (p.Total + k - 1) / k
+			if k >= 2 && len(p.Levels) >= 2 {
+				slack += int64(len(p.Levels)) - 1 // region of the known finding F-TIE-SPLIT
+			}
+		}
+		take := changed[i] + c.Wagers[i]
+		if take < lo || take > hi {
+			known := take >= lo-slack && take <= hi+slack
+			return &c02failure{"share", fmt.Sprintf("player %d takes %d out of the pots it wins; equal shares give between %d and %d", i, take, lo, hi), known}
+		}
+	}
 	return nil
 }
 
